@@ -13,7 +13,7 @@ def full_sig(c):
     """observable snapshot minus the log, plus the private bookkeeping (used only to de-duplicate explored states)"""
     s = H.snap(c).split('|')
     priv = ';'.join('%s%d%d%d%d%d' % (j.bib, j.eliminated, j.dismissed, j.round_lim, j.consecutive_failures, j._place) for j in c.jumpers)
-    return '|'.join(s[:4]) + '#' + priv + '#' + ','.join(j.bib for j in c.ranked_jumpers)
+    return '|'.join(s[:4]) + '#' + priv + '#' + ','.join(str(j.bib) for j in c.ranked_jumpers)
 
 def alphabet(c, nmax):
     """every kind of call the property's alphabet names, relative to the current state"""
@@ -43,7 +43,7 @@ class Judge:
         ncell = None
         if op[0] == 'trial':
             for j in c.jumpers:
-                if j.bib == str(op[1]):
+                if str(j.bib) == str(op[1]):
                     ncell = len(j.attempts_by_height[-1]) if c.heights and len(j.attempts_by_height) == len(c.heights) else 0
         was_out = {j.bib for j in c.jumpers if getattr(j, 'eliminated', False)}
         out = H.apply_op(athlib, c, op)
@@ -53,7 +53,7 @@ class Judge:
         self.kinds[(op[0] if op[0] != 'trial' else op[2], out)] += 1
         def fail(expected, got, note):
             fl = getattr(c, '_verif_float', False)
-            self.ctx.fail('HighJumpCompetition', H.fmt_ops(hist) + (['(bar heights passed as float)'] if fl else []), expected, got, note=note + (' [float heights]' if fl else ''), replay_py=H.replay_py(hist, fl, getattr(c, '_verif_scale', 100)))
+            self.ctx.fail('HighJumpCompetition', H.fmt_ops(hist) + (['(bar heights passed as float)'] if fl else []), expected, got, note=note + (' [float heights]' if fl else ''), replay_py=H.replay_py(hist, fl, getattr(c, '_verif_scale', 100), getattr(c, '_verif_intbibs', False)))
         if out != 'ok' and after != before:
             fail('a refused call leaves every observable unchanged', 'before: %s / after: %s' % (before, after), 'refusal not atomic')
         if out not in ('ok', 'rule') and not (out == 'key' and want is None):
@@ -73,7 +73,7 @@ class Judge:
                  'more attempts at a height than the rules give')
         if back and c.state in ('scheduled', 'started', 'won'):
             # theorem C02_back_only_with_one_attempt: in the model nobody who was out is in again unless a jump-off is on
-            fail('an athlete who is out stays out unless re-instated for a jump-off', 'bib %s is back in, state %s' % (','.join(back), c.state),
+            fail('an athlete who is out stays out unless re-instated for a jump-off', 'bib %s is back in, state %s' % (','.join(str(b) for b in back), c.state),
                  'out, then in again outside a jump-off')
         if st0 in ('finished', 'drawn') and out == 'ok':
             fail('nothing is accepted once finished or drawn', out, 'accepted in a terminal state')
@@ -130,7 +130,7 @@ def run(ctx):
     nwalks = 1500 if ctx.quick() else 40000
     for w in range(nwalks):
         mm = (w % 7 == 3)                    # millimetre heights (a converted imperial mark): the ops carry thousandths
-        c = H.new_comp(athlib, float_heights=(w % 3 == 1), scale=1000 if mm else 100); ref = H.Ref(); ops = []
+        c = H.new_comp(athlib, float_heights=(w % 3 == 1), scale=1000 if mm else 100, int_bibs=(w % 5 == 2)); ref = H.Ref(); ops = []
         lines.append('hj\tnew'); expect.append('new'); meta.append(None)
         nb = rng.randint(1, 4); h = rng.choice([100, 100, 180, 200, 229, 50]) * (10 if mm else 1)
         for i in range(rng.randint(5, 60)):
@@ -152,22 +152,22 @@ def run(ctx):
         # next calls in the same way
         if w % 2 == 0 and not mm:
             try:
-                c2 = c.from_actions(); c2._verif_float = c._verif_float; c2._verif_scale = c._verif_scale
+                c2 = c.from_actions(); c2._verif_float = c._verif_float; c2._verif_scale = c._verif_scale; c2._verif_intbibs = getattr(c, '_verif_intbibs', False)
                 s1, s2 = H.snap(c), H.snap(c2)
                 if s1 != s2:
                     ctx.fail('HighJumpCompetition.from_actions', H.fmt_ops(ops), s1, s2, note='the competition rebuilt from its action log differs',
-                             replay_py=H.replay_py(ops, c._verif_float) + '\nc2 = c.from_actions()\nresult = (result, [(j.bib, j.attempts_by_height) for j in c2.jumpers])')
+                             replay_py=H.replay_py(ops, c._verif_float, getattr(c, '_verif_scale', 100), getattr(c, '_verif_intbibs', False)) + '\nc2 = c.from_actions()\nresult = (result, [(j.bib, j.attempts_by_height) for j in c2.jumpers])')
                 else:
                     for _ in range(4):
                         op = ('trial', rng.randint(1, max(1, len(c.jumpers))), rng.choice('oxpr')) if rng.random() < 0.8 else ('bar', h + rng.choice([3, 0, -2]))
                         o1 = H.apply_op(athlib, c, op); o2 = H.apply_op(athlib, c2, op); ops.append(op)
                         if (o1, H.snap(c)) != (o2, H.snap(c2)):
                             ctx.fail('HighJumpCompetition.from_actions', H.fmt_ops(ops), o1 + ' / ' + H.snap(c), o2 + ' / ' + H.snap(c2),
-                                     note='a call is answered differently by the competition rebuilt from the action log', replay_py=H.replay_py(ops, c._verif_float))
+                                     note='a call is answered differently by the competition rebuilt from the action log', replay_py=H.replay_py(ops, c._verif_float, getattr(c, '_verif_scale', 100), getattr(c, '_verif_intbibs', False)))
                             break
             except Exception as e:
                 ctx.fail('HighJumpCompetition.from_actions', H.fmt_ops(ops), 'the same competition', '%s: %s' % (type(e).__name__, e), note='rebuilding from the action log raised',
-                         replay_py=H.replay_py(ops, c._verif_float) + '\nresult = c.from_actions().state')
+                         replay_py=H.replay_py(ops, c._verif_float, getattr(c, '_verif_scale', 100), getattr(c, '_verif_intbibs', False)) + '\nresult = c.from_actions().state')
         if w < 3:
             ctx.sample({'walk': H.fmt_ops(ops), 'final_state': c.state})
     ctx.stats['walks'] = nwalks
